@@ -6,9 +6,20 @@
 (* anything involving a user class the outcome is computed by the data-model protocol below:    *)
 (* forward dunder, reflected dunder, subclass-first rule, same-type rule, __getattr__ fallback, *)
 (* __call__.  Outcomes: "ok", "TypeError", "AttributeError", "other" (IndexError, KeyError..).  *)
+(*                                                                                              *)
+(* Two families of behaviours:                                                                  *)
+(*   base     one statement whose operands are literals / fresh instances bound on earlier      *)
+(*            lines (action Base);                                                              *)
+(*   history  a LOCATION (an instance attribute first assigned in __init__, or a module-level   *)
+(*            name) is assigned a sequence of operand kinds (actions Bind, Rebind: adjacent      *)
+(*            kinds differ) and is read as an operand after every assignment (action Use).      *)
+(*            The operand kind of a read is the LAST assigned kind; everything assigned before   *)
+(*            is overwritten and must not influence the statement.                              *)
 EXTENDS Naturals, Sequences, FiniteSets, TLC, Json, IOUtils
 
-CONSTANT Export
+CONSTANTS Export,      \* print one CASE line per statement state
+          HSlices,     \* the history plans are partitioned into HSlices fixed slices
+          HSlice       \* the slice explored by this run (HSlice >= HSlices: all of them)
 
 (* outcome tables for builtin operands: DATA probed from CPython by the driver *)
 Tables == JsonDeserialize(IOEnv.OP_TABLES)
@@ -76,14 +87,23 @@ UserAdd(l, r) ==
 
 Pick(S) == CHOOSE x \in S : TRUE
 
+BinOps == {"+", "-", "*", "/"}
+
+(* the probed tables as functions (evaluated once) *)
+BinFn   == [k \in BinOps \X Builtins \X Builtins |->
+              Pick({t \in BinTable : t[1] = k[1] /\ t[2] = k[2] /\ t[3] = k[3]})[4]]
+UnaryFn == [l \in Builtins |-> Pick({t \in UnaryTable : t[1] = l})[2]]
+CallFn  == [l \in Builtins |-> Pick({t \in CallTable : t[1] = l})[2]]
+
 Outcome(s) ==
   LET kind == s[1]  op == s[2]  l == s[3]  r == s[4] IN
   CASE kind = "bin" ->
-         IF l \in Builtins /\ r \in Builtins
-           THEN Pick({t \in BinTable : t[1] = op /\ t[2] = l /\ t[3] = r})[4]
-           ELSE UserAdd(l, r)                         \* only "+" is generated with user operands
+         IF l \in Builtins /\ r \in Builtins THEN BinFn[<<op, l, r>>]
+         ELSE IF op = "+" THEN UserAdd(l, r)
+         ELSE "TypeError"       \* the generated classes define no dunder of - * / (only reached
+                                \* for overwritten kinds of a history, never for a statement)
     [] kind = "unary" ->
-         IF l \in Builtins THEN Pick({t \in UnaryTable : t[1] = l})[2]
+         IF l \in Builtins THEN UnaryFn[l]
          ELSE IF Dunder(l, "__neg__") = "val" THEN "ok" ELSE "TypeError"
     [] kind = "sub" ->
          IF l \in Builtins THEN Pick({t \in SubTable : t[1] = l /\ t[2] = r})[3]
@@ -98,11 +118,11 @@ Outcome(s) ==
          ELSE IF Lookup(l, op) # "none" \/ Lookup(l, "__getattr__") = "val" THEN "TypeError"
          ELSE "AttributeError"
     [] kind = "call" ->
-         IF l \in Builtins THEN Pick({t \in CallTable : t[1] = l})[2]
+         IF l \in Builtins THEN CallFn[l]
          ELSE IF Dunder(l, "__call__") = "val" THEN "ok" ELSE "TypeError"
+    [] kind = "assign" -> "ok"      \* binding a literal / fresh instance never raises
 
 (* the statement grammar *)
-BinOps == {"+", "-", "*", "/"}
 Statements ==
        {<<"bin", op, l, r>> : op \in BinOps, l \in Builtins, r \in Builtins}
   \cup {<<"bin", "+", l, r>> : l \in Operands, r \in Users}
@@ -124,18 +144,122 @@ Advertised(s) ==
   \/ kind = "meth" /\ l \in Users /\ o = "TypeError"               \* calling a non-callable attribute
   \/ kind \in {"bin", "unary", "sub"} /\ l \in Builtins /\ r \in Builtins /\ o = "TypeError"
 
-VARIABLES stmt, out
-Init == stmt = <<"none", "", "", "">> /\ out = "ok"
-Next == \E s \in Statements : stmt' = s /\ out' = Outcome(s)
-Spec == Init /\ [][Next]_<<stmt, out>>
+(* ------------------------------------------------------------------------------------------ *)
+(* Locations with an assignment history                                                        *)
+(* ------------------------------------------------------------------------------------------ *)
+LocKinds == {"attr",     \* b.v : first assigned by `self.v = ...` in __init__, then `b.v = ...`
+             "name"}     \* g   : module-level name assigned repeatedly
+MaxHist == 3
+(* kinds used for histories of three assignments (the third may equal the first) *)
+HK3 == {"int", "str", "list", "NoneType", "len", "Ua", "Ug", "Uc"}
+(* the other operand of a binary operator applied to a location *)
+Probe == {"int", "float", "str", "bytes", "list", "tuple", "NoneType", "Ua", "Ur"}
+
+Plans ==
+       {<<a>> : a \in Operands}
+  \cup {p \in {<<a, b>> : a \in Operands, b \in Operands} : p[1] # p[2]}
+  \cup {p \in {<<a, b, c>> : a \in HK3, b \in HK3, c \in HK3} : p[1] # p[2] /\ p[2] # p[3]}
+
+(* fixed partition of the plans: position of the kinds in a fixed order, mixed per position *)
+UserSeq == <<"U0", "Ua", "Uan", "Ur", "Urn", "Uar", "Uanr", "Sa", "Sr", "Un", "Ug", "Uc", "Uga",
+             "Um", "Sm">>
+KindSeq == Tables.builtins \o UserSeq
+Ord == [k \in Operands |-> CHOOSE n \in 1..Len(KindSeq) : KindSeq[n] = k]
+HIdx(p) == (Ord[p[1]] + (IF Len(p) >= 2 THEN 5 * Ord[p[2]] ELSE 0)
+                      + (IF Len(p) >= 3 THEN 7 * Ord[p[3]] ELSE 0)) % HSlices
+InSlice(p) == HSlice >= HSlices \/ HIdx(p) = HSlice
+
+(* statement templates: "@" stands for the value read from the location.  They mirror the     *)
+(* base grammar (with user-class operands only "+"), so that a template resolved with the      *)
+(* current kind is a statement of the base grammar.                                            *)
+HTemplates(k) ==
+       {<<"bin", op, "@", p>> : op \in BinOps, p \in Probe \cap Builtins}
+  \cup {<<"bin", op, p, "@">> : op \in BinOps, p \in Probe \cap Builtins}
+  \cup {<<"bin", "+", "@", p>> : p \in Probe}
+  \cup {<<"bin", "+", p, "@">> : p \in Probe}
+  \cup {<<"unary", "-", "@", "@">>, <<"sub", "[]", "@", "int">>, <<"sub", "[]", "@", "str">>,
+        <<"call", "()", "@", "@">>}
+Templates(k) ==
+  IF k \in Builtins THEN HTemplates(k)
+  ELSE {t \in HTemplates(k) : (t[1] = "bin" => t[2] = "+") /\ t # <<"sub", "[]", "@", "str">>}
+(* reads between two assignments (the location is overwritten afterwards) *)
+MidTemplates == {<<"bin", "+", "@", "int">>, <<"bin", "+", "int", "@">>, <<"unary", "-", "@", "@">>,
+                 <<"sub", "[]", "@", "int">>, <<"call", "()", "@", "@">>}
+
+Resolve(t, k) == <<t[1], t[2], IF t[3] = "@" THEN k ELSE t[3], IF t[4] = "@" THEN k ELSE t[4]>>
+Last(h) == h[Len(h)]
+IsErr(o) == o \in {"TypeError", "AttributeError"}
+
+(* the statement distinguishes the current kind from an overwritten one *)
+Sensitive(h, t) ==
+  \E j \in 1..(Len(h) - 1) :
+     IsErr(Outcome(Resolve(t, h[j]))) # IsErr(Outcome(Resolve(t, Last(h))))
+
+VARIABLES stmt, out,       \* the statement (template, for a history) and its outcome
+          loc, plan, hist  \* history family: kind of location, planned and performed assignments
+vars == <<stmt, out, loc, plan, hist>>
+NoStmt == <<"none", "", "", "">>
+Init == stmt = NoStmt /\ out = "ok" /\ loc = "none" /\ plan = <<>> /\ hist = <<>>
+
+Base == /\ stmt = NoStmt /\ loc = "none"
+        /\ \E s \in Statements : stmt' = s /\ out' = Outcome(s)
+        /\ UNCHANGED <<loc, plan, hist>>
+
+(* first assignment *)
+Bind == /\ stmt = NoStmt /\ loc = "none"
+        /\ \E l \in LocKinds, p \in {q \in Plans : InSlice(q)} :
+              /\ loc' = l /\ plan' = p /\ hist' = <<p[1]>>
+              /\ stmt' = <<"assign", "=", "@", p[1]>> /\ out' = "ok"
+
+(* re-assignment with a value of a different kind *)
+CanRebind(h, k) == Len(h) >= 1 /\ Len(h) < MaxHist /\ k \in Operands /\ k # Last(h)
+Rebind == /\ loc # "none" /\ Len(hist) < Len(plan)
+          /\ LET k == plan[Len(hist) + 1] IN
+               /\ CanRebind(hist, k)
+               /\ hist' = Append(hist, k)
+               /\ stmt' = <<"assign", "=", "@", k>> /\ out' = "ok"
+          /\ UNCHANGED <<loc, plan>>
+
+(* a read of the location as an operand; the state of the location is unchanged, so the reads  *)
+(* after one assignment are alternatives of each other (the driver puts them on consecutive    *)
+(* lines of one program)                                                                       *)
+UsableAt(h, p, t) ==
+  /\ Len(h) >= 1
+  /\ t \in (IF Len(h) = Len(p) THEN Templates(Last(h)) ELSE MidTemplates)
+Use == /\ loc # "none" /\ stmt[1] = "assign"
+       /\ \E t \in HTemplates("") : /\ UsableAt(hist, plan, t)
+                                    /\ stmt' = t /\ out' = Outcome(Resolve(t, Last(hist)))
+       /\ UNCHANGED <<loc, plan, hist>>
+
+Next == Base \/ Bind \/ Rebind \/ Use
+Spec == Init /\ [][Next]_vars
 
 (* protocol sanity: outcome total; reflected tried only after forward declined *)
 Total == out \in {"ok", "TypeError", "AttributeError", "other"}
 ReflectedOnlyAfterDecline ==
-  (stmt[1] = "bin" /\ stmt[3] \in Users /\ Dunder(stmt[3], "__add__") = "val"
+  (loc = "none" /\ stmt[1] = "bin" /\ stmt[2] = "+" /\ stmt[3] \in Users
+     /\ Dunder(stmt[3], "__add__") = "val"
      /\ ~(stmt[4] \in Users /\ IsSubclass(stmt[4], stmt[3]) /\ DefinesItself(stmt[4], "__radd__")))
   => out = "ok"
+(* history sanity: performed assignments are a prefix of the plan, adjacent kinds differ, a     *)
+(* read resolves to a statement of the base grammar and its outcome is the outcome of that      *)
+(* statement with the LAST assigned kind, whatever was assigned before                          *)
+IsUse == loc # "none" /\ stmt[1] \notin {"none", "assign"}
+HistoryShape ==
+  loc # "none" =>
+    /\ Len(hist) \in 1..Len(plan) /\ Len(plan) <= MaxHist
+    /\ \A j \in 1..Len(hist) : hist[j] = plan[j]
+    /\ \A j \in 1..(Len(hist) - 1) : hist[j] # hist[j + 1]
+LastWriteWins ==
+  IsUse => /\ Resolve(stmt, Last(hist)) \in Statements
+           /\ out = Outcome(Resolve(stmt, Last(hist)))
 ExportInv ==
-  (Export /\ stmt[1] # "none") =>
-     PrintT(<<"CASE", ToJson([s |-> stmt, o |-> out, adv |-> Advertised(stmt)])>>)
+  (Export /\ stmt[1] \notin {"none", "assign"}) =>
+     IF loc = "none"
+       THEN PrintT(<<"CASE", ToJson([fam |-> "base", s |-> stmt, o |-> out,
+                                     adv |-> Advertised(stmt)])>>)
+       ELSE PrintT(<<"CASE", ToJson([fam |-> "hist", loc |-> loc, plan |-> plan, h |-> hist,
+                                     s |-> stmt, rs |-> Resolve(stmt, Last(hist)), o |-> out,
+                                     adv |-> Advertised(Resolve(stmt, Last(hist))),
+                                     sens |-> Sensitive(hist, stmt), slice |-> HIdx(plan)])>>)
 =============================================================================
